@@ -211,12 +211,12 @@ def h_cdda(f0: int, df: int, tail: int, last: int, cut: int, k: int) -> int:
 # ------------------------------------------------------------------ whole AKAI image cut at a solver-chosen position (decision tree; concrete per path)
 def h_image(sector: int, off_i: int, order: int) -> int:
     """
-    pre: 0 <= sector <= 8 and 0 <= off_i <= 7 and 0 <= order <= 1
+    pre: 0 <= sector <= 10 and 0 <= off_i <= 7 and 0 <= order <= 1
     post: _ == 1
     """
     CNT[0] += 1
     from vf.util import conc, untraced
-    sector, off_i, order = conc(sector, 0, 8), conc(off_i, 0, 7), conc(order, 0, 1)
+    sector, off_i, order = conc(sector, 0, 10), conc(off_i, 0, 7), conc(order, 0, 1)
     with untraced():
         import io
         import struct
@@ -227,10 +227,11 @@ def h_image(sector: int, off_i: int, order: int) -> int:
         def words(n, seed):
             return b"".join(struct.pack("<h", ((i * 7 + seed * 1000) % 60000) - 30000) for i in range(n))
         sf = akaiw.sample_file
-        # directory in sector 3; AAA (2 sectors: 4,5 or reversed), BBB (sector 6), CCC -L / CCC -R (7, 8)
+        # directory in sector 3 (4 left free); AAA (2 sectors: 5,6 or reversed), BBB (sector 7), CCC -L / CCC -R (8, 9)
         files = [("AAA", 0x73, sf("AAA", words(6000, 1)), [1, 0] if order else None), ("BBB", 0xf3, sf("BBB", words(60, 2)), None),
                  ("CCC -L", 0x73, sf("CCC -L", words(300, 3)), None), ("CCC -R", 0x73, sf("CCC -R", words(300, 4)), None)]
-        img = akaiw.partition([("VOL", files, None)], size_sectors=16)
+        lay = {}
+        img = akaiw.partition([("VOL", files, None)], size_sectors=16, layout=lay)
         full = dict(c16._do(actions.determine_image_type(io.BufferedReader(io.BytesIO(img))), ("export", None))[1])
         cut = sector * 8192 + (0, 1, 50, 139, 140, 141, 4096, 8191)[off_i]
         try:
@@ -239,7 +240,10 @@ def h_image(sector: int, off_i: int, order: int) -> int:
         except Exception:
             got = None                                   # export ended with an error: nothing (more) is reported ...
         # ... but a file whose directory entry, header and data sectors all lie before the cut must have been exported complete
-        extent = {"out/A/VOL/AAA.wav": 6, "out/A/VOL/BBB.wav": 7, "out/A/VOL/CCC.wav": 9}      # first sector after the file's data
+        end = lambda *fn: 1 + max(s for f in fn for s in lay[("VOL", f)])                     # first sector after the files' data (from the writer's layout)
+        extent = {"out/A/VOL/AAA.wav": end("AAA"), "out/A/VOL/BBB.wav": end("BBB"), "out/A/VOL/CCC.wav": end("CCC -L", "CCC -R")}
+        if sorted(extent.values()) != [7, 8, 10]:
+            raise AssertionError("harness: layout of the written image is not the one the cut positions were chosen for")
         for path, end_sector in extent.items():
             if cut >= end_sector * 8192:
                 if got is None or got.get(path) != full[path]:
